@@ -9,8 +9,12 @@ ks = sys.argv[2:]
 out = V / "notes" / f"round{rnd}_feedback"
 out.mkdir(exist_ok=True)
 tot = {"caught": 0, "weak": 0, "missed": 0}
+import os
+only = os.environ.get('PROPS', '').split()
 for p in range(1, 21):
     pid = f"C{p:02d}"
+    if only and pid not in only:
+        continue
     good, bad = [], []
     for k in ks:
         name = f"{pid}_{k}"
